@@ -82,6 +82,7 @@ let log_str = function
   | LInitLazy k -> Printf.sprintf "I lazy %s" (nat_str k)
   | LDropLazy k -> Printf.sprintf "D lazy %s" (nat_str k)
   | LPoll (b, pc) -> Printf.sprintf "P %s %s" (nat_str b) (nat_str pc)
+  | LTlsAccess (k, b, ok) -> Printf.sprintf "X tls %s %s %s" (nat_str k) (nat_str b) (if ok then "ok" else "gone")
 
 let cut70 s = if String.length s > 70 then String.sub s 0 70 else s
 
@@ -129,7 +130,7 @@ let panic_str = function
   | PanicNotifyWaiter -> internal "only a single thread may wait on `Notify`: true"
   | PanicRelaxedFence -> internal "there is no such thing as a relaxed fence"
   | PanicMoEq -> internal "assertion `left != right` failed"
-  | PanicRwCorrupt -> internal "loom::RwLock state corrupt"
+  | PanicRwCorrupt -> internal "loom::RwLock state corrupt: \"WouldBlock\""
   | PanicCellWriting -> internal "currently writing to cell"
   | PanicCellReading -> internal "currently reading from cell"
   | PanicMutating -> internal "atomic cell is in `with_mut` call"
@@ -199,6 +200,8 @@ let instr_of (s : string) : instr =
   | [ "bo"; a; v; w ] -> IBlockOn (nat_s a, n_of_string v, nat_s w)
   | [ "wk"; w ] -> IWake (nat_s w)
   | [ "tkw"; w ] -> ITakeWaker (nat_s w)
+  | [ "bs"; a; v; b1; b2 ] -> IBlockOnS (nat_s a, n_of_string v, nat_s b1, nat_s b2)
+  | [ "wme" ] -> IWakeMine
   | [ "tw"; k ] -> ITlsWith (nat_s k)
   | [ "lz"; k ] -> ILazyGet (nat_s k)
   | [ "pn" ] -> IPanic
